@@ -186,6 +186,8 @@ func (n *networkTopology) replicaMap(tokenRing *tokenRing) tokenRingReplicas {
 	replicasInDC := make(map[string]int, len(n.dcs))
 	// dc -> racks
 	seenDCRacks := make(map[string]map[string]struct{}, len(n.dcs))
+	// hosts already visited while walking the ring for the current token
+	seenHosts := make(map[*HostInfo]struct{}, len(tokenRing.hosts))
 
 	for _, h := range tokenRing.hosts {
 		dc := h.DataCenter()
@@ -229,14 +231,24 @@ func (n *networkTopology) replicaMap(tokenRing *tokenRing) tokenRingReplicas {
 			}
 		}
 
+		for h := range seenHosts {
+			delete(seenHosts, h)
+		}
+
 		replicas := make([]*HostInfo, 0, totalRF)
 		for j := 0; j < len(tokens) && (len(replicas) < totalRF && !n.haveRF(replicasInDC)); j++ {
-			// TODO: ensure we dont add the same host twice
 			p := i + j
 			if p >= len(tokens) {
 				p -= len(tokens)
 			}
 			h := tokens[p].host
+
+			if _, ok := seenHosts[h]; ok {
+				// a host owning several tokens (vnodes) is considered only once per token,
+				// so that it is never added twice
+				continue
+			}
+			seenHosts[h] = struct{}{}
 
 			dc := h.DataCenter()
 			rack := h.Rack()
